@@ -30,6 +30,8 @@ import (
 //	Q<h>   a NEW writer (so: created after the accepted writer of that height) for a height that
 //	       is not last+1 - every height from one below the lowest temp up to the top, and top+2 -
 //	       filled, written and given to Center.MergeBlockWriteDatabase, which rejects it
+//	D<h>   a NEW writer for every occupied height from one below the lowest temp up to the top, filled,
+//	       written and Cancel()ed without a merge (the node found the block already saved)
 //	E<h>   a new writer of height top / top+1 that was filled and written but never got a block
 //	       map, given to Center.MergeBlockWriteDatabase, which rejects it ("empty blockmap")
 //
@@ -145,6 +147,11 @@ func (p *c20wPure) enabled(env *vfEnv) []string {
 		}
 
 		evs = append(evs, fmt.Sprintf("Q%d", top+2))
+
+		for h := p.lo(); h <= top; h++ {
+			evs = append(evs, fmt.Sprintf("D%d", h))
+		}
+
 		evs = append(evs, fmt.Sprintf("E%d", top))
 	}
 
@@ -224,16 +231,20 @@ func (p *c20wPure) apply(env *vfEnv, ev string) (blk *vfBlock, flag bool, class 
 		p.m.blocks = append(p.m.blocks, blk)
 
 		return blk, true, "accepted"
-	case ev[0] == 'Q', ev[0] == 'E':
+	case ev[0] == 'Q', ev[0] == 'E', ev[0] == 'D':
 		var h int
 
 		if _, err := fmt.Sscanf(ev[1:], "%d", &h); err != nil {
 			panic(err)
 		}
 
-		if ev[0] == 'Q' {
+		if ev[0] == 'Q' || ev[0] == 'D' {
 			blk = p.newBlock(env, h, 'S')
 			p.store = append(p.store, vfPrefix{id: blk.id, height: h})
+
+			if ev[0] == 'D' {
+				return blk, false, "cancelled:newer-writer:" + p.where(h)
+			}
 
 			return blk, false, "rejected:newer-writer:" + p.where(h)
 		}
@@ -387,6 +398,8 @@ func (db *c20wDB) apply(ev string, blk *vfBlock, accept bool) (flag bool, err er
 		return db.merge(w, accept)
 	case ev[0] == 'Q':
 		return db.merge(db.newWriter(blk), false)
+	case ev[0] == 'D':
+		return false, db.newWriter(blk).Cancel()
 	case ev[0] == 'E':
 		return db.merge(db.newWriterNoMap(blk), false)
 	case ev == "X":
@@ -479,6 +492,8 @@ func (s *c20wSearch) execute(hist []string) (vios []c20Vio, outcome string) {
 		outcome = fmt.Sprintf("%c:%v", ev[0], flag)
 		if class != "" {
 			outcome = fmt.Sprintf("%c:%s", ev[0], class)
+
+			s.r.Add("writers_event_"+outcome, 1) // the evidence keeps the 40 most frequent outcomes only
 		}
 
 		if flag != wantflag {
@@ -625,7 +640,9 @@ func TestVerifC20Writers(t *testing.T) {
 
 	rule := "second unit: BFS over event histories of the first unit's alphabet without the pool writes (quick: block kinds S/F only, no M) + the block writers that do not become part of the chain: " +
 		"N open a written block writer for the next height and keep it, J merge the open writer (accepted, or rejected because meanwhile its height was taken - top temp, lower temp, permanent database - or the chain was cut below it), K cancel it, " +
-		"Q<h> a new written writer for every height from one below the lowest temp to the top and for top+2 given to MergeBlockWriteDatabase (rejected: wrong height), E<h> a new written writer without block map of height top and top+1 given to MergeBlockWriteDatabase (rejected: empty block map); at most one open writer; " +
+		"Q<h> a new written writer for every height from one below the lowest temp to the top and for top+2 given to MergeBlockWriteDatabase (rejected: wrong height), D<h> a new written writer for every such occupied height cancelled without a merge, " +
+		"E<h> a new written writer without block map of height top and top+1 given to MergeBlockWriteDatabase (rejected: empty block map); at most one open writer and at most the stated number of N/Q/D/E writers per history; " +
+		"quick tier: no event of the first unit's alphabet that the model predicts to leave the state unchanged; " +
 		"two configurations as in the first unit (no caches/batch limit 2, rejected writers left alone; caches 16/writer caches 1/batch limit 3, rejected writers also cancelled); " +
 		"after every transition all reads, close, reopen, same reads, close, reopen, same reads; both must equal the reads before closing; " +
 		"non-trivial = a state where an uncommitted prefix storage sits at a height whose committed block is in a temp (reopening has to choose)"
@@ -637,6 +654,7 @@ func TestVerifC20Writers(t *testing.T) {
 	r.Assume("an open block writer does not survive the restart (it is an in-memory object of the closed process); its prefix storage does")
 	r.Set("writers_depth", depth)
 	r.Set("writers_max_blocks", maxblocks)
+	r.Set("writers_max_uncommitted_writers", maxextra)
 
 	counter := 0
 
